@@ -31,7 +31,7 @@ func main() {
 		if len(args) < 2 {
 			usage()
 		}
-		os.Exit(core.Replay(root, args[1]))
+		os.Exit(core.Replay(root, args[1], func(id string) *core.Check { return checks.All[id] }))
 	}
 	if args[0] == "list" {
 		ids := []string{}
